@@ -9,4 +9,6 @@ for c in $CHECKS; do
   ./check $c --tier quick 2>&1 | grep -E "VIOLATION|KNOWN|tier=" | cut -c1-300
 done
 git -C /repo checkout -- .
+# the evidence files were rewritten by runs on the seeded tree: restore the committed ones (evidence comes from clean-tree runs only)
+git -C /verif checkout -- evidence 2>/dev/null
 git -C /repo status --short | head -3
